@@ -37,6 +37,59 @@ type fn struct {
 	name string
 	recv string // name of the *Bundle variable
 	decl *ast.FuncDecl
+	// local variables that alias the bundle's token list (ts := b.ts, ts := b.current()): a slice header copied out of
+	// the bundle shares its backing array, so every later use of the variable is an access to the shared list
+	aliases map[string]bool
+}
+
+// returnsTokens: a Bundle method whose result is the token list type hands out an alias of b.ts
+func returnsTokens(fd *ast.FuncDecl) bool {
+	if fd == nil || fd.Type.Results == nil {
+		return false
+	}
+	for _, r := range fd.Type.Results.List {
+		if id, ok := r.Type.(*ast.Ident); ok && id.Name == "tokens" {
+			return true
+		}
+	}
+	return false
+}
+
+// aliasSource: the expression evaluates to (a slice of) the receiver's token list without copying the elements
+func aliasSource(f *fn, e ast.Expr) bool {
+	switch x := e.(type) {
+	case *ast.ParenExpr:
+		return aliasSource(f, x.X)
+	case *ast.SliceExpr:
+		return aliasSource(f, x.X)
+	case *ast.Ident:
+		return f.aliases[x.Name]
+	case *ast.SelectorExpr:
+		return isSel(x, f.recv, "ts")
+	case *ast.CallExpr:
+		if s, ok := x.Fun.(*ast.SelectorExpr); ok {
+			if id, ok := s.X.(*ast.Ident); ok && id.Name == f.recv {
+				if callee, ok := funcs[s.Sel.Name]; ok && callee.decl.Recv != nil {
+					return returnsTokens(callee.decl)
+				}
+			}
+		}
+	}
+	return false
+}
+
+func noteAliases(f *fn, lhs []ast.Expr, rhs []ast.Expr) {
+	if len(lhs) != len(rhs) {
+		return
+	}
+	for i := range lhs {
+		if id, ok := lhs[i].(*ast.Ident); ok && id.Name != "_" && aliasSource(f, rhs[i]) {
+			if f.aliases == nil {
+				f.aliases = map[string]bool{}
+			}
+			f.aliases[id.Name] = true
+		}
+	}
 }
 
 var (
@@ -81,7 +134,7 @@ func main() {
 			if fd.Recv != nil && len(fd.Recv.List) == 1 {
 				r := fd.Recv.List[0]
 				if isBundlePtr(r.Type) && len(r.Names) == 1 {
-					funcs[fd.Name.Name] = &fn{fd.Name.Name, r.Names[0].Name, fd}
+					funcs[fd.Name.Name] = &fn{name: fd.Name.Name, recv: r.Names[0].Name, decl: fd}
 				}
 				// methods of type tokens: classify read/write
 				if isTokens(r.Type) {
@@ -95,7 +148,7 @@ func main() {
 			if fd.Type.Params != nil && len(fd.Type.Params.List) > 0 {
 				p := fd.Type.Params.List[0]
 				if isBundlePtr(p.Type) && len(p.Names) == 1 {
-					funcs[fd.Name.Name] = &fn{fd.Name.Name, p.Names[0].Name, fd}
+					funcs[fd.Name.Name] = &fn{name: fd.Name.Name, recv: p.Names[0].Name, decl: fd}
 				}
 			}
 		}
@@ -305,7 +358,17 @@ func walkStmt(f *fn, s ast.Stmt, ps []path, depth int) []path {
 		for _, r := range st.Rhs {
 			ps = evalExpr(f, r, ps, depth)
 		}
+		noteAliases(f, st.Lhs, st.Rhs)
 		for _, l := range st.Lhs {
+			if id, ok := l.(*ast.Ident); ok && f.aliases[id.Name] {
+				continue // (re)binding the local name is not an access
+			}
+			if ix, ok := l.(*ast.IndexExpr); ok {
+				if id, ok := ix.X.(*ast.Ident); ok && f.aliases[id.Name] {
+					ps = addEv(evalExpr(f, ix.Index, ps, depth), "Wr") // element store through the alias
+					continue
+				}
+			}
 			if isSel(l, f.recv, "ts") {
 				ps = addEv(ps, "Wr")
 			} else if isSel(l, f.recv, "m") {
@@ -321,6 +384,11 @@ func walkStmt(f *fn, s ast.Stmt, ps []path, depth int) []path {
 				for _, v := range vs.Values {
 					ps = evalExpr(f, v, ps, depth)
 				}
+				var lhs []ast.Expr
+				for _, nm := range vs.Names {
+					lhs = append(lhs, nm)
+				}
+				noteAliases(f, lhs, vs.Values)
 				return false
 			}
 			return true
@@ -363,6 +431,7 @@ func walkStmt(f *fn, s ast.Stmt, ps []path, depth int) []path {
 		return walkStmts(f, st.List, ps, depth)
 	case *ast.ForStmt, *ast.RangeStmt:
 		var body *ast.BlockStmt
+		iterReads := false
 		switch l := st.(type) {
 		case *ast.ForStmt:
 			ps = walkStmt(f, l.Init, ps, depth)
@@ -373,11 +442,18 @@ func walkStmt(f *fn, s ast.Stmt, ps []path, depth int) []path {
 		case *ast.RangeStmt:
 			ps = evalExpr(f, l.X, ps, depth)
 			body = l.Body
+			// ranging over an alias of the token list reads the shared backing array in every iteration
+			if _, direct := l.X.(*ast.SelectorExpr); !direct && aliasSource(f, l.X) {
+				iterReads = true
+			}
 		}
 		// 0, 1 or 2 iterations
 		out := clonePaths(ps)
 		cur := ps
 		for it := 0; it < 2; it++ {
+			if iterReads {
+				cur = addEv(clonePaths(cur), "Rd")
+			}
 			cur = walkStmts(f, body.List, clonePaths(cur), depth)
 			var next []path
 			for _, p := range cur {
@@ -543,6 +619,16 @@ func evalExpr(f *fn, e ast.Expr, ps []path, depth int) []path {
 				}
 				return addEv(ps, "Rd")
 			}
+			// method of the token list called through a local alias
+			if id, ok := s.X.(*ast.Ident); ok && f.aliases[id.Name] && tokMethods[s.Sel.Name] {
+				for _, a := range x.Args {
+					ps = evalExpr(f, a, ps, depth)
+				}
+				if tokWrites[s.Sel.Name] {
+					return addEv(ps, "Wr")
+				}
+				return addEv(ps, "Rd")
+			}
 			// x.Apply(rv.ts): in-place filter
 			if s.Sel.Name == "Apply" {
 				ps = evalExpr(f, s.X, ps, depth)
@@ -591,6 +677,9 @@ func evalExpr(f *fn, e ast.Expr, ps []path, depth int) []path {
 		}
 		return ps
 	case *ast.Ident:
+		if f.aliases[x.Name] {
+			return addEv(ps, "Rd")
+		}
 		if x.Name == f.recv {
 			// the bundle itself escapes (passed on): not understood
 			fail(x.Pos(), "bundle value escapes")
